@@ -136,6 +136,19 @@ def body(ch: Chooser, n, with_meta=True, rich=True):
                 lines.append("@" + t2)
                 lines.append(words())
                 lines.append("@end" + t2)
+    if rich and ch.bool(1, 6):
+        # a footnote / a reference-style link whose definition ends this comment: definitions belong to one comment only
+        lines.append("")
+        if ch.bool():
+            lines.append(words() + f" see[^fn{n}]")
+            lines.append("")
+            lines.append(f"[^fn{n}]: " + words())
+            feats.add("footnote")
+        else:
+            lines.append(words() + f" [zq{n}x999w0][ref{n}]")
+            lines.append("")
+            lines.append(f"[ref{n}]: http://example.com/page{n}")
+            feats.add("reference-link")
     return lines, feats
 
 
@@ -163,11 +176,12 @@ def gen_case(ch: Chooser, excl=()):
     marks = ch.choice(MARK_SETS)
     g = gen.Gen(ch, {"docs": True, "doc_maker": doc_maker, "late_access": True, "excl": tuple(excl)})
     proj = g.project()
-    files, used = render.render_project(proj, ch, marks=marks, features={"comments": True})
+    files, used = render.render_project(proj, ch, marks=marks, features={"comments": True, "include_split": True})
     styles = used.get("docstyle", [])
     feats = g.entity_docs.get("_feats", set())
     return {"part": "A", "files": files, "marks": marks, "expected": model.canon_project(proj),
             "classes": sorted(["A:style:" + s for s in styles] + ["A:marks:" + ("custom" if marks else "default")] +
+                              (["A:include-file"] if "include-split" in used else []) +
                               ["A:" + f for f in feats]),
             "nontrivial": len(styles) >= 2}
 
